@@ -1,9 +1,9 @@
 /-
-C15 witnesses — the full statements are still false of the code with fixes C15-1/2/3 applied
-(unrepaired: F9a, F9d, F9e, F9f, F9g, F9h, F9i `two_adic_generator` part). The shapes of the
-repaired findings F9b, F9c, F9i (overflow part) and F9o are kept as regression facts: the model
-now says `.err` for them; `*_record` theorems keep the pre-fix steps they used to fail as a
-record only.
+C15 witnesses — the full statements are still false of the code with fixes C15-1/2/3 and the
+repairs ca07f07, fc0321f, 069da9d, c030fca, 0e5036a applied (unrepaired: the two-adicity window of
+F9a, F9f, F9g, F9h). The shapes of the repaired findings F9b, F9c, F9d, F9e, F9i, F9o and of the
+repaired part of F9a are kept as regression facts: the model now says `.err` for them; `*_record`
+theorems keep the pre-fix steps they used to fail as a record only.
 
 Every theorem here evaluates the model (`P3R.Shape.verifyUni`) on a concrete shape vector that
 differs from an honest one by ONE structural alteration; each is the shape of a corpus witness
@@ -22,11 +22,30 @@ open P3R.Shape P3R.C15
 def fib := honestFib 1
 def e0 := envFib 0
 
-/-- F9a: `degree_bits` is used in `1 << degree_bits` and to build domains before anything
-compares it with the opened data (corpus f9a_*). -/
+/-- F9a, what is left after ca07f07: `degree_bits` is bounded by the field's *bit width* (31) before
+the shift, but the PCS domain constructors need the *two-adicity* (27): 28..=31 still panic
+(corpus f9a_degree_bits_28, f9a_degree_bits_31). The window is exact: 27 and 32 are errors
+(`C15.uni_prefix_panic_iff` for every shape). -/
 theorem degree_bits_panics :
-    verifyUni e0 { fib with degreeBits := 64 } = .panic ∧
-    verifyUni e0 { fib with degreeBits := 28 } = .panic := by decide
+    verifyUni e0 { fib with degreeBits := 28 } = .panic ∧
+    verifyUni e0 { fib with degreeBits := 31 } = .panic ∧
+    verifyUni e0 { fib with degreeBits := 27 } = .err ∧
+    verifyUni e0 { fib with degreeBits := 32 } = .err := by decide
+
+/-- F9a-1 repaired (ca07f07): `degree_bits` ≥ 64 (the old shift overflow), 63, `usize::MAX` and
+everything above the bit width are rejected with an error (corpus f9a_degree_bits_64, now a
+regression case; `C15.uni_degree_out_of_range_err` for every shape). -/
+theorem degree_bits_out_of_range_rejected :
+    verifyUni e0 { fib with degreeBits := 64 } = .err ∧
+    verifyUni e0 { fib with degreeBits := 63 } = .err ∧
+    verifyUni e0 { fib with degreeBits := 2 ^ 64 - 1 } = .err ∧
+    verifyUni envMul { honestMul with degreeBits := 31 } = .err := by decide
+
+/-- Record only: the step `1 << degree_bits` as it was before ca07f07 (first step of the builder). -/
+def preFixShiftStep (e : Env) (s : UniShape) : List Check := [ partialStep (s.degreeBits < e.wordBits) ]
+
+theorem degree_bits_64_record : run (preFixShiftStep e0 { fib with degreeBits := 64 }) = .panic := by
+  decide
 
 /-- Record only: the two steps of `friVerifyChecks` as they were before fix C15-1 (unchecked
 slice `challenges[1..1+commits]`, unchecked `+`), and the step of `openInputChecks` before fix
@@ -69,8 +88,8 @@ def shortSchedule0 : UniShape :=
 def shortSchedule : UniShape :=
   { fib with fri :=
       { commitCaps := [1, 1], powWitnesses := 2, finalPolyLen := 1,
-        queries := [{ inputProof := [[2], [4]], steps := [1, 1] },
-                    { inputProof := [[2], [4]], steps := [1, 1] }] } }
+        queries := [{ inputProof := [[2], [4]], steps := [1, 1], siblings := [1, 1] },
+                    { inputProof := [[2], [4]], steps := [1, 1], siblings := [1, 1] }] } }
 
 theorem schedule_too_short_rejected :
     verifyUni e0 shortSchedule0 = .err ∧ verifyUni e0 shortSchedule = .err := by decide
@@ -87,28 +106,72 @@ theorem degree_bits_plus1_record :
 theorem schedule_too_short_record :
     run (preFixHeightSteps e0 shortSchedule.fri (uniRounds e0 shortSchedule)) = .panic := by decide
 
-/-- F9d: `log_arity` is shifted / multiplied / used as an allocation size while the targets are
-allocated (corpus f9d_*: 255 overflows the shift, 28 asks for 2^30 targets). -/
-theorem log_arity_panics :
+/-- F9d repaired (fc0321f): a `log_arity` of 255 (old shift overflow) or 28 (old 2^30-target
+allocation) is rejected with an error — the targets are sized by the proof's sibling count and the
+count is compared with checked arithmetic (corpus f9d_*, now regression cases;
+`C15.fri_sibling_mismatch_err` / `fri_log_arity_out_of_range_err` for every shape). The third
+shape keeps the honest schedule and drops one sibling value: an error too (before the repair the
+sibling count was invisible to the builder). -/
+theorem log_arity_out_of_range_rejected :
     verifyUni e0 { fib with fri := { fib.fri with
-      queries := [{ honestQuery with steps := [1, 1, 255] }, honestQuery] } } = .panic ∧
+      queries := [{ honestQuery with steps := [1, 1, 255] }, honestQuery] } } = .err ∧
     verifyUni e0 { fib with fri := { fib.fri with
-      queries := [honestQuery, { honestQuery with steps := [28, 1, 1] }] } } = .panic := by decide
+      queries := [honestQuery, { honestQuery with steps := [28, 1, 1] }] } } = .err ∧
+    verifyUni e0 { fib with fri := { fib.fri with
+      queries := [honestQuery, { honestQuery with siblings := [1, 1, 0] }] } } = .err := by decide
 
-/-- F9e: an empty Merkle cap hits `assert!(!commitment_cap.is_empty())` (corpus f9e_cap_empty). -/
-theorem cap_empty_panics : verifyUni e0 { fib with traceCap := 0 } = .panic := by decide
+/-- Record only: `CommitPhaseProofStepTargets::new` as it was before fc0321f (`1 << log_arity`,
+`(arity-1) * DIMENSION`, allocation of that many targets), run while the targets were allocated. -/
+def preFixAllocStep (e : Env) (la : Nat) : List Check :=
+  [ partialStep (la < e.wordBits),
+    partialStep ((2 ^ la - 1) * e.dim < 2 ^ e.wordBits),
+    partialStep ((2 ^ la - 1) * e.dim ≤ e.maxAlloc) ]
 
-/-- F9e: a cap of 3 roots hits `log2_strict_usize` (corpus f9e_cap_not_pow2). -/
-theorem cap_not_pow2_panics :
-    verifyUni (envFib 1) { honestFib 2 with traceCap := 3 } = .panic := by decide
+theorem log_arity_record :
+    run (preFixAllocStep e0 255) = .panic ∧ run (preFixAllocStep e0 28) = .panic ∧
+    run (preFixAllocStep e0 1) = .ok := by decide
+
+/-- F9e repaired (069da9d): an empty Merkle cap, and a cap of 3 roots, are rejected with an error
+(corpus f9e_*, now regression cases; `C15.open_input_bad_cap_err` for every shape). -/
+theorem cap_empty_rejected : verifyUni e0 { fib with traceCap := 0 } = .err := by decide
+
+theorem cap_not_pow2_rejected :
+    verifyUni (envFib 1) { honestFib 2 with traceCap := 3 } = .err := by decide
+
+/-- Record only: the cap steps as they were before 069da9d (`assert!(!cap.is_empty())`,
+`log2_strict_usize`). -/
+def preFixCapSteps (cap : Nat) : List Check := [ partialStep (cap != 0), partialStep (isPow2 cap) ]
+
+theorem cap_record : run (preFixCapSteps 0) = .panic ∧ run (preFixCapSteps 3) = .panic := by decide
 
 /-- F9h: the uni verifier evaluates the AIR with the proof's preprocessed width before validating
 it (corpus f9h). -/
 theorem prep_short_panics :
     verifyUni envMul { honestMul with prepLocal := some 3 } = .panic := by decide
 
-/-- F9i: an out-of-range `log_blowup` parameter reaches `two_adic_generator` (corpus f9i). -/
-theorem log_blowup_panics : verifyUni { e0 with logBlowup := 28 } fib = .panic := by decide
+/-- F9i repaired (c030fca): `log_blowup = 28` gives `log_max_height = 31`, within the bit width
+but above the two-adicity: an error now (corpus f9i_log_blowup_28, regression case;
+`C15.fri_height_above_two_adicity_err` for every shape). Record: the former last step of
+`friVerifyChecks`, `two_adic_generator(log_max_height)`. -/
+theorem log_blowup_28_rejected : verifyUni { e0 with logBlowup := 28 } fib = .err := by decide
+
+def preFixGeneratorStep (e : Env) (f : FriShape) : List Check :=
+  [ partialStep (logMaxHeight e f ≤ e.twoAdicity) ]
+
+theorem log_blowup_28_record :
+    run (preFixGeneratorStep { e0 with logBlowup := 28 } fib.fri) = .panic := by decide
+
+/-- C07-F4 repaired (0e5036a): a proof without fold phase — every committed matrix already has the
+final polynomial's height — is accepted (native accepts it; before, `verify_fri_circuit` returned
+"FRI must have at least one fold phase"). One-row trace, blow-up 4, constant final polynomial. -/
+def zeroPhase : UniShape :=
+  { fib with degreeBits := 0, fri :=
+      { commitCaps := [], powWitnesses := 0, finalPolyLen := 1,
+        queries := [{ inputProof := [[2], [4]], steps := [], siblings := [] },
+                    { inputProof := [[2], [4]], steps := [], siblings := [] }] } }
+
+theorem zero_phase_accepted : verifyUni e0 zeroPhase = .ok ∧ PanicGuards e0 zeroPhase = true := by
+  decide
 
 /-- F9p (fixed by bd209ac; regression record): a commitment round whose LDE height is below the cap
 height — `open_input` passes only the upper `batchHeight` index bits and `verify_batch_circuit`
@@ -133,7 +196,7 @@ theorem cap_resized_accepted :
 /-- Negation of the full statement "the builder never panics". -/
 theorem no_panic_full_false : ¬ (∀ (e : Env) (s : UniShape), verifyUni e s ≠ .panic) := by
   intro h
-  exact h e0 { fib with degreeBits := 64 } degree_bits_panics.1
+  exact h e0 { fib with degreeBits := 28 } degree_bits_panics.1
 
 /-- Negation of the full statement "every shape other than the well-formed one is rejected with
 an error" (for this AIR, degree and FRI configuration the well-formed shape is `fib`: the native
@@ -147,16 +210,18 @@ theorem malformed_rejected_full_false :
 
 /-- Every remaining panic witness falsifies the hypothesis of `uni_no_panic_partial`; the accepted
 ones do not (they are outside what validation covers, not panics), and neither do the shapes of
-the repaired findings (they are plain errors now). -/
+the repaired findings (they are plain errors now: caps, `log_arity`, `log_blowup`). -/
 theorem witnesses_falsify_guards :
-    PanicGuards e0 { fib with degreeBits := 64 } = false ∧
+    PanicGuards e0 { fib with degreeBits := 28 } = false ∧
     PanicGuards e0 { fib with fri := { fib.fri with powWitnesses := 2 } } = true ∧
     PanicGuards e0 { fib with fri := { fib.fri with commitCaps := [1, 1, 1, 1] } } = true ∧
     PanicGuards e0 shortSchedule = true ∧
-    PanicGuards e0 { fib with traceCap := 0 } = false ∧
-    PanicGuards (envFib 1) { honestFib 2 with traceCap := 3 } = false ∧
+    PanicGuards e0 { fib with traceCap := 0 } = true ∧
+    PanicGuards (envFib 1) { honestFib 2 with traceCap := 3 } = true ∧
+    PanicGuards e0 { fib with fri := { fib.fri with
+      queries := [{ honestQuery with steps := [1, 1, 255] }, honestQuery] } } = true ∧
     PanicGuards envMul { honestMul with prepLocal := some 3 } = false ∧
-    PanicGuards { e0 with logBlowup := 28 } fib = false ∧
+    PanicGuards { e0 with logBlowup := 28 } fib = true ∧
     PanicGuards e0 { fib with fri := { fib.fri with queries := [honestQuery] } } = true ∧
     PanicGuards e0 { fib with traceCap := 2 } = true := by decide
 
@@ -172,11 +237,17 @@ end P3R.Witness.C15
 #print axioms P3R.Witness.C15.degree_bits_plus1_rejected
 #print axioms P3R.Witness.C15.degree_bits_plus1_record
 #print axioms P3R.Witness.C15.schedule_too_short_record
-#print axioms P3R.Witness.C15.log_arity_panics
-#print axioms P3R.Witness.C15.cap_empty_panics
-#print axioms P3R.Witness.C15.cap_not_pow2_panics
+#print axioms P3R.Witness.C15.degree_bits_out_of_range_rejected
+#print axioms P3R.Witness.C15.degree_bits_64_record
+#print axioms P3R.Witness.C15.log_arity_out_of_range_rejected
+#print axioms P3R.Witness.C15.log_arity_record
+#print axioms P3R.Witness.C15.cap_empty_rejected
+#print axioms P3R.Witness.C15.cap_not_pow2_rejected
+#print axioms P3R.Witness.C15.cap_record
+#print axioms P3R.Witness.C15.log_blowup_28_rejected
+#print axioms P3R.Witness.C15.log_blowup_28_record
+#print axioms P3R.Witness.C15.zero_phase_accepted
 #print axioms P3R.Witness.C15.prep_short_panics
-#print axioms P3R.Witness.C15.log_blowup_panics
 #print axioms P3R.Witness.C15.query_dropped_accepted
 #print axioms P3R.Witness.C15.cap_resized_accepted
 #print axioms P3R.Witness.C15.no_panic_full_false
